@@ -84,7 +84,11 @@ def slice_evolvent(module, source_path):
             args=ast.arguments(posonlyargs=[], args=[ast.arg(arg='self')] + [ast.arg(arg=a) for a in argnames] +
                                [ast.arg(arg=n) for n in state_names] + [ast.arg(arg=jname)],
                                kwonlyargs=[], kw_defaults=[], defaults=[]),
-            body=copy.deepcopy(loop.body) + [ret_step], decorator_list=[], type_params=[])
+            # the body runs inside a one-pass loop so that a `break` / `continue` written in the real loop ends this level (the state reached
+            # so far is returned); variables the lemmas read are pre-set so that an early exit is visible as a value, not as an UnboundLocalError
+            body=[ast.Assign(targets=[ast.Name(id=n, ctx=ast.Store())], value=ast.Constant(value=None)) for n in extra] +
+                 [ast.For(target=ast.Name(id='_once', ctx=ast.Store()), iter=ast.Tuple(elts=[ast.Constant(value=0)], ctx=ast.Load()),
+                          body=copy.deepcopy(loop.body), orelse=[])] + [ret_step], decorator_list=[], type_params=[])
         # init: the statements before the loop, minus annotations-only and the N==1 shortcut
         init_body = [copy.deepcopy(s) for s in pre
                      if not (isinstance(s, ast.AnnAssign) and s.value is None) and not isinstance(s, ast.If)]
